@@ -6,6 +6,7 @@ import tempfile
 
 # ConfigSpace binary vs numpy 2: make the library take its own "yahpo not installed" path.
 sys.modules.setdefault("yahpo_gym", None)
+sys.modules.setdefault("ConfigSpace", None)   # same binary incompatibility: take the library's "SMAC not installed" path
 
 if "SYNETUNE_FOLDER" not in os.environ:
     import atexit
